@@ -2,5 +2,6 @@ SPECIFICATION Spec
 CONSTANTS
   Orders = {3, 4}
   WideOrders = {3, 4}
+  SecondKeyOrders = "ends"
   SoftOrders = {3, 4}
 INVARIANT SpecOK
